@@ -65,4 +65,26 @@ def c11RowOk (tbl : List C11LockRow) (r : C11LockRow) : Bool :=
 
 def c11TableOk (tbl : List C11LockRow) : Bool := tbl.all (c11RowOk tbl)
 
+/-- one function literal of the source (regenerated, `Gen.Locks.closures`): its canonical name
+`<package>:<function>.func<N>`, the captured variables it assigns outside a mutex section of its own (`writes`: the
+closure object is mutable state), the literals with such writes that its captured variables may hold (`holds`: a
+wrapper), and the places where its value — or a value that holds it — may be stored so that other goroutines find it
+(a struct field, a map / slice element, a sync.Map, sync.Pool or atomic.Value, a channel, a package variable) -/
+structure C11Closure where
+  key : String
+  writes : List String
+  holds : List String
+  stored : List String
+  deriving Repr
+
+/-- calling the closure changes state that lives in the closure object -/
+def C11Closure.stateful (c : C11Closure) : Bool := !c.writes.isEmpty || !c.holds.isEmpty
+
+/-- a stateful closure is created, called and dropped by one goroutine: it is stored nowhere, except at the listed
+(closure, place) pairs that are known to stay with one goroutine -/
+def c11ClosureOk (confined : List (String × String)) (c : C11Closure) : Bool :=
+  !c.stateful || c.stored.all fun site => confined.contains (c.key, site)
+
+def c11ClosuresOk (confined : List (String × String)) (cs : List C11Closure) : Bool := cs.all (c11ClosureOk confined)
+
 end Pandora.Go
